@@ -117,6 +117,7 @@ def run(pid, tier, seed, njobs=None):
            "samples": [[e for e in projected[0]["ev"] if e["e"] in ("retire", "free")][:6]] if projected else [],
            "outcomes": outcomes, "retire_events": nret, "free_events": nfree, "bulk_jobs": len(bjobs), "rejected": len(v["rejected"]),
            "tlc_trace_validation": {"states": v["states"], "distinct": v["distinct"], "wall_s": round(v["wall"], 1)}}
+    lib.add_spec_coverage(cov, pid, tier)
     rc = verdict.finish()
     lib.write_evidence(pid, tier, seed, "model_checking", cov, time.time() - t0, len(verdict.violations),
                        ["seize 0.3.3 frees a retired object only after every guard active at its retirement was dropped (epoch filtering off)",
